@@ -69,7 +69,7 @@ def main():
              "kind_free_text": "bounded-exhaustive explorer: every check is a list of finite indexable families; every work item runs the real engine inside supervised worker processes (crash/hang isolation), oracle evaluated on every case, evidence/replay/known-finding handling shared"},
         ],
         "checks": checks,
-        "notes": "Exit codes of every check: 0 held (KNOWN-FINDING lines possible), 1 VIOLATION, 2 machinery failure. Lines prefixed [features=fast] come from the thorough tier's pass on the subject built with --features fast. Known findings: /verif/known_findings.json. Seeded changes used to validate detection: /verif/seeded/.",
+        "notes": "Exit codes of every check: 0 held (KNOWN-FINDING lines possible), 1 VIOLATION, 2 machinery failure. Lines prefixed [features=fast] come from the thorough tier's pass on the subject built with --features fast. Known findings: /verif/known_findings.json. Seeded changes used to validate detection: /verif/seeded/. Besides the hook feature tera_verif the harness switches on cargo features the repository itself defines, so that the code behind the properties is compiled: glob_fs of tera (load_from_glob / full_reload, C10 and C11) and base64, urlencode, json, slug, regex, rand, filesize_format, format of tera-contrib (C18, C20).",
         "not_applicable": na,
     }
     with open(os.path.join(ROOT, "MANIFEST.json"), "w") as f:
